@@ -21,6 +21,8 @@ INVARIANT InvStructure
 INVARIANT InvBounded
 INVARIANT InvKept
 INVARIANT InvCountersWeak
+INVARIANT InvCountersAlive
+INVARIANT InvIdleCounters
 INVARIANT InvOrphanKind
 INVARIANT InvIdle
 INVARIANT InvDropped
